@@ -14,7 +14,7 @@ open Gallia Gallia.Proto Gallia.Lifecycle
              dcStop tdPost post
              pre/dbopen/post : ok | fail     dumpcap : started | none | missing | sync
              every other word: ok | exit:<n> | exitx | conn | uds | other | kbd | cancel
-  world    : lock=<free|busy|broken>;base=<0|1>;now=<n>;runs=<- | name:tag/name:tag ...>;latest=<-|n>      (tag '-' = no META.json)
+  world    : lock=<free|busy|broken|interrupted>;base=<0|1>;now=<n>;runs=<- | name:tag/name:tag ...>;latest=<-|n>      (tag '-' = no META.json)
   final    : exit=.. meta=.. db=.. dbclosed=.. logclosed=.. lock=.. pre=.. post=.. reports=.. tclosed=.. trace=..
              tpstopped=.. dcstopped=.. waited=.. artdir=.. runs=.. latest=..
 -/
@@ -105,6 +105,7 @@ def parseWorld (s : String) : Option World :=
       | "free" => some LockEnv.free
       | "busy" => some LockEnv.busy
       | "broken" => some LockEnv.broken
+      | "interrupted" => some LockEnv.interrupted
       | _ => none
     let baseOk ← match ← kv "base" b with
       | "1" => some true
@@ -134,6 +135,7 @@ def showFinal (f : Final) : String :=
     | .escHook => "esc:hook"
     | .escDb => "esc:db"
     | .escArt => "esc:art"
+    | .escLockWait => "esc:lockwait"
   let mf := match f.metaFile with
     | none => "none"
     | some m => s!"{m.exit}:{m.start}:{m.stop}"
@@ -171,6 +173,7 @@ def parseFinal : List String → Option Final
       | ["esc", "hook"] => some .escHook
       | ["esc", "db"] => some .escDb
       | ["esc", "art"] => some .escArt
+      | ["esc", "lockwait"] => some .escLockWait
       | _ => none
     let m ← kv "meta" m
     let metaFile ← match m.splitOn ":" with
@@ -231,6 +234,7 @@ def step (line : String) : String :=
     match parseWorld w, parseCfg k bits with
     | some w, some c => match Spec.startOf w c with
       | .noLock => "noLock"
+      | .lockWaitInterrupted => "lockWaitInterrupted"
       | .noArtDir => "noArtDir"
       | .started => "started"
     | _, _ => "bad-op"
